@@ -103,7 +103,7 @@ func (g *Gen) Str(pool []string) string {
 }
 
 var strPool = []string{"10", "9", "1.0", "1", "007", "1e1", "", "a", "B", "ab", "Ab", "aB", "ba", "(a", "a)", "a.b", "x*y", "a+", "[z]", "q?", "^a", "a$", "a|b",
-	"héllo", "HÉLLO", "a b", "%", "_", "abc", "ABC", "b"}
+	"héllo", "HÉLLO", "a b", "%", "_", "abc", "ABC", "b", "a\nb", "a\n", "\tb"}
 var patPool = []string{"", "%", "_", "a%", "%a", "%b%", "_b", "a_", "(%", "%)", "a.b", "a.%", "x*%", "%+", "[%]", "q?", "^%", "%$", "a|b",
 	"h_llo", "%LLO", "a b", "a%b%", "__", "%_%", "ABC", "abc"}
 
